@@ -125,6 +125,7 @@ def gen(ch):
     sc.strict = ch.chance(1, 3)
     sc.result_mode = ch.weighted([4, 1, 2])  # results: always a fresh tuple, always None, None / falsy every other time
     sc.falsy_inst = ch.chance(1, 3)
+    sc.equal_inst = ch.chance(1, 5)
     ops = []
     discards = ch.chance(1, 3)  # most histories stay comparable with functools to the end
     for _ in range(ch.between(1, 40)):
@@ -238,6 +239,11 @@ def build(sc, sim, ref):
             ns = {"m": decorate(sc, L, meth, ref)}
             if sc.falsy_inst:
                 ns["__len__"] = lambda self_: 0  # an instance whose truth value is False is an instance all the same
+            if getattr(sc, "equal_inst", False):
+                # all instances compare (and hash) equal: they share cache entries, as with functools - yet a call that
+                # does reach the function reaches it with the instance it was made through
+                ns["__eq__"] = lambda self_, other: type(other) is type(self_)
+                ns["__hash__"] = lambda self_: 7
             cls = type("Holder", (), ns)
             x, y = cls(), cls()
             x.label, y.label = "inst0", "inst1"
@@ -341,6 +347,8 @@ def ref_history(sc, side, model, mside):
             margs = side_prefix_model(mside, inst % 2) + args
             if sc.binding == 1:
                 label = "inst%d" % (inst % 2)
+        if sc.binding == 1 and getattr(sc, "equal_inst", False):
+            margs = (("any instance: they all compare equal",),) + args
         if kind == 0:
             if ref_valid:
                 side.fail_next = fail
@@ -419,7 +427,7 @@ def execute(st, ctx):
 
     def describe(i=None):
         return {"maxsize": sc.maxsize, "typed": sc.typed, "form": sc.form, "binding": sc.binding,
-                "result_mode": sc.result_mode, "falsy_instances": sc.falsy_inst, "wrapped_function_has_a_real_signature": sc.strict,
+                "result_mode": sc.result_mode, "falsy_instances": sc.falsy_inst, "instances_compare_equal": sc.equal_inst, "wrapped_function_has_a_real_signature": sc.strict,
                 "effective": [msize, aside.typed],
                 "patterns": [repr(p) for p in sc.pats],
                 "ops": [(("call", "clear", "info", "params", "discard")[k], p, inst, f) for k, p, inst, f in sc.ops][: (i + 1) if i is not None else None],
@@ -474,7 +482,7 @@ def execute(st, ctx):
     if any(len(kw) == 2 for _, kw in sc.pats):
         out.probes["keyword_order"] = 1
     out.nontrivial = hits >= 1 and (evicted or bool(mside.discards) or aside.typed or "failing_call" in out.probes)
-    out.shape = (sc.maxsize_sel, sc.typed, sc.form, sc.binding, sc.result_mode, sc.falsy_inst, sc.strict, tuple(repr(p) for p in sc.pats), tuple(sc.ops))
+    out.shape = (sc.maxsize_sel, sc.typed, sc.form, sc.binding, sc.result_mode, sc.falsy_inst, sc.equal_inst, sc.strict, tuple(repr(p) for p in sc.pats), tuple(sc.ops))
     if ctx.want_sample:
         out.sample = describe()
     if ctx.want_log:
